@@ -139,6 +139,8 @@ type c17API struct {
 	trace      []string
 
 	inner     logical.Storage
+	txn       bool // the mount's storage is transactional (no fault wrapper then: faults are the keysutil unit's subject)
+	config    *logical.BackendConfig
 	fs        *c17FaultStorage
 	faultUsed bool
 	faultTag  string
@@ -567,6 +569,22 @@ func (a *c17API) actTrim(t *rapid.T) {
 }
 
 func (a *c17API) actReload(t *rapid.T) {
+	if rapid.IntRange(0, 2).Draw(t, "remount") == 0 {
+		// the mount is set up again on the same storage (restart, seal/unseal, leadership change): whatever was
+		// acknowledged must be there
+		a.step("remount()")
+		b, err := Backend(c17Ctx, a.config)
+		if err != nil || b == nil {
+			t.Fatalf("harness: Backend: %v", err)
+		}
+		if err := b.Setup(c17Ctx, a.config); err != nil {
+			t.Fatalf("harness: Setup: %v", err)
+		}
+		a.b.Cleanup(c17Ctx)
+		a.b = b
+		a.rec.Class("remount", 1)
+		return
+	}
 	a.step("reload()")
 	a.b.invalidate(c17Ctx, "policy/"+c17Key)
 }
@@ -1530,6 +1548,10 @@ func (a *c17API) drawFault(t *rapid.T, table []string) (string, int) {
 func (a *c17API) rotateCapped() bool { return a.kind.rsaBits > 0 && a.m.latest >= 4 }
 
 func (a *c17API) actFault(t *rapid.T) {
+	if a.txn {
+		a.actConfig(t)
+		return
+	}
 	m := a.m
 	op := c17Slot(t, "faultOp", []string{"rotate", "rotate", "config", "config", "trim", "trim", "config", "rotate"})
 	if op == "trim" && m.minEnc == 0 {
@@ -1576,7 +1598,7 @@ func (a *c17API) mustConfig(t *rapid.T, dec, enc int) {
 // actFaultCycle: rotation hit by a write failure, retry, material under the new version, one more rotation,
 // min_decryption_version raised above that version and lowered again, reload, then the material must still work.
 func (a *c17API) actFaultCycle(t *rapid.T) {
-	if a.rotateCapped() {
+	if a.txn || a.rotateCapped() {
 		a.actConfig(t)
 		return
 	}
@@ -1773,7 +1795,15 @@ func TestVerif_C17_API(t *testing.T) {
 		a.inner = &logical.InmemStorage{}
 		a.fs = &c17FaultStorage{Storage: a.inner}
 		a.st = a.fs
+		a.txn = rapid.IntRange(0, 2).Draw(rt, "transactionalStorage") == 0
+		if a.txn {
+			// what the server hands a mount on raft and on every other transactional backend
+			a.inner = logical.NewLogicalStorage(verifx.NewInmem(true))
+			a.st = a.inner
+			a.rec.Class("transactional-storage", 1)
+		}
 		config.StorageView = a.inner
+		a.config = config
 		if a.noCache {
 			sv := logical.TestSystemView()
 			sv.CachingDisabledVal = true
@@ -1786,7 +1816,7 @@ func TestVerif_C17_API(t *testing.T) {
 		if err := b.Setup(c17Ctx, config); err != nil {
 			rt.Fatalf("harness: Setup: %v", err)
 		}
-		defer b.Cleanup(c17Ctx)
+		defer func() { a.b.Cleanup(c17Ctx) }()
 		a.b = b
 
 		create := map[string]any{"type": a.kind.name, "derived": a.derived, "convergent_encryption": a.convergent}
